@@ -75,6 +75,59 @@ theorem centered_affine [CharZero K] (win : Nat → List Nat) (s : Nat → K) (a
   field_simp
   ring
 
+theorem lccScore_congr (w : List Nat) (x y x' y' : Nat → K) (eps : K)
+    (hx : ∀ j ∈ w, x j = x' j) (hy : ∀ j ∈ w, y j = y' j) : lccScore w x y eps = lccScore w x' y' eps := by
+  unfold lccScore
+  rw [winSum_congr (f := fun j => x j * y j) (g := fun j => x' j * y' j) (fun j hj => by rw [hx j hj, hy j hj]),
+    winSum_congr (f := fun j => x j * x j) (g := fun j => x' j * x' j) (fun j hj => by rw [hx j hj]),
+    winSum_congr (f := fun j => y j * y j) (g := fun j => y' j * y' j) (fun j hj => by rw [hy j hj])]
+
+/-! ### masked NCC: weighted mean, centred image times mask -/
+
+/-- `(s − Σ s·m / Σ m)·m` — ncc_loss @570-572. -/
+def centerM (n : Nat) (s m : Nat → K) : Nat → K :=
+  fun i => (s i - sumTo n (fun i => s i * m i) / sumTo n m) * m i
+
+theorem nccItemM_eq (n : Nat) (s t m : Nat → K) (eps : K) :
+    nccItemM n s t m eps = lccScore (List.range n) (centerM n s m) (centerM n t m) eps := by
+  unfold nccItemM lccScore centerM
+  simp only [sumTo_eq_winSum]
+
+/-- weighted centring of `a·s + β` (the weighted mean reproduces constants when `Σ m ≠ 0`). -/
+theorem centerM_affine (n : Nat) (s m : Nat → K) (a β : K) (hm : sumTo n m ≠ 0) (i : Nat) :
+    centerM n (fun i => a * s i + β) m i = a * centerM n s m i := by
+  unfold centerM
+  have : sumTo n (fun i => (a * s i + β) * m i) = a * sumTo n (fun i => s i * m i) + β * sumTo n m := by
+    rw [← sumTo_mul_left, ← sumTo_mul_left, ← sumTo_add]
+    exact sumTo_congr (fun i _ => by ring)
+  rw [this]
+  field_simp
+  ring
+
+/-- samples of weight 0 do not influence the weighted, centred image. -/
+theorem centerM_congr (n : Nat) (s s' m : Nat → K) (h : ∀ i, i < n → m i ≠ 0 → s i = s' i) (i : Nat) (hi : i < n) :
+    centerM n s m i = centerM n s' m i := by
+  unfold centerM
+  have hs : sumTo n (fun i => s i * m i) = sumTo n (fun i => s' i * m i) := by
+    apply sumTo_congr
+    intro j hj
+    by_cases hm : m j = 0
+    · simp [hm]
+    · rw [h j hj hm]
+  rw [hs]
+  by_cases hm : m i = 0
+  · simp [hm]
+  · rw [h i hi hm]
+
+/-- an all-ones mask gives the unmasked centring. -/
+theorem centerM_ones [CharZero K] (n : Nat) (s m : Nat → K) (h : ∀ i, i < n → m i = 1) (i : Nat) (hi : i < n) :
+    centerM n s m i = s i - sumTo n s / (n : K) := by
+  unfold centerM
+  have h1 : sumTo n (fun i => s i * m i) = sumTo n s := sumTo_congr (fun j hj => by rw [h j hj, mul_one])
+  have h2 : sumTo n m = (n : K) := by
+    rw [sumTo_congr (g := fun _ => (1 : K)) h, sumTo_const, mul_one]
+  rw [h1, h2, h i hi, mul_one]
+
 end Field
 
 section Ordered
